@@ -68,9 +68,9 @@ Lemma ord_extend s tr m newph k p q :
   pos_of newph = q ->
   forall pr ac rg evs,
     (forall x, x <> m -> proj x evs = []) -> proj m evs = k ->
-    ord_inv (mkS (upd (ph s) m newph) pr ac rg) (tr ++ evs).
+    forall hk', ord_inv (mkS (upd (ph s) m newph) pr ac rg hk') (tr ++ evs).
 Proof.
-  intros Hinv Hp Hr Hk Hq Hn pr ac rg evs Hoth Hsame x.
+  intros Hinv Hp Hr Hk Hq Hn pr ac rg evs Hoth Hsame hk' x.
   destruct (Hinv x) as [Hc Hl]. rewrite proj_app. cbn [ph].
   destruct (Z.eq_dec x m) as [->|Hne].
   - rewrite Hsame, upd_same. split.
@@ -80,8 +80,8 @@ Proof.
   - rewrite (Hoth x Hne), app_nil_r, upd_other by exact Hne. split; assumption.
 Qed.
 
-Lemma ord_same s tr pr ac rg :
-  ord_inv s tr -> ord_inv (mkS (ph s) pr ac rg) (tr ++ []).
+Lemma ord_same s tr pr ac rg hk' :
+  ord_inv s tr -> ord_inv (mkS (ph s) pr ac rg hk') (tr ++ []).
 Proof. intros H x. rewrite app_nil_r. exact (H x). Qed.
 
 Lemma ord_keep s tr : ord_inv s tr -> ord_inv s (tr ++ []).
@@ -121,7 +121,7 @@ Proof.
     + intros x Hx. apply proj_other1; exact Hx.
     + apply proj_same1.
   - (* CbStarted *)
-    cbn [fst snd r_events]. apply ord_keep; exact H.
+    destruct fx; [destruct (hk s m)|]; cbn [fst snd r_events]; apply ord_keep; exact H.
   - (* QStopped *)
     destruct (ph s m) eqn:E; cbn [fst snd r_events]; try (apply ord_keep; exact H).
     eapply (ord_extend s tr m Winding [5] 5 0); try reflexivity; try lia; try exact H.
@@ -291,14 +291,14 @@ Qed.
 Definition act_inv (s : state) : Prop :=
   NoDup (act s) /\ sorted_desc (pri s) (act s) = true /\ (forall m, In m (act s) <-> is_act (ph s m) = true).
 
-Lemma act_inv_reg s rg : act_inv s -> act_inv (mkS (ph s) (pri s) (act s) rg).
+Lemma act_inv_reg s rg hk' : act_inv s -> act_inv (mkS (ph s) (pri s) (act s) rg hk').
 Proof. intro H. exact H. Qed.
 
 (* a phase change of m that keeps _active, with an optional priority change while m is not listed *)
-Lemma act_inv_phase s m np pr' rg :
+Lemma act_inv_phase s m np pr' rg hk' :
   act_inv s -> is_act np = is_act (ph s m) ->
   (forall x, In x (act s) -> pr' x = pri s x) ->
-  act_inv (mkS (upd (ph s) m np) pr' (act s) rg).
+  act_inv (mkS (upd (ph s) m np) pr' (act s) rg hk').
 Proof.
   intros [Hn [Hs Hm]] Hp Hpr. unfold act_inv; cbn [act pri ph]. repeat split.
   - exact Hn.
@@ -348,7 +348,7 @@ Proof.
     + intro X. rewrite sort_in, in_app_iff. destruct (Z.eq_dec m0 m) as [->|Hne].
       * right. left. reflexivity.
       * left. rewrite upd_other in X by exact Hne. apply Hm. exact X.
-  - cbn [fst]. exact H.
+  - destruct fx; [destruct (hk s m)|]; cbn [fst]; exact H.
   - destruct (ph s m) eqn:E; cbn [fst]; try exact H.
     destruct H as [Hn [Hs Hm]]. unfold act_inv; cbn [act pri ph]. repeat split.
     + apply sort_nodup. apply nodup_filter. exact Hn.
@@ -456,11 +456,11 @@ Proof.
   - unfold entry_inv; cbn [ph]. rewrite upd_other by exact Hne. repeat split; assumption.
 Qed.
 
-Lemma reg_inv_phase s m np rg pr ac :
+Lemma reg_inv_phase s m np rg pr ac hk' :
   reg_inv s -> np <> Idle ->
   (forall e, In e rg -> In e (reg s)) ->
   (forall e, In e rg -> e_own e = m -> e_cls e = 1 -> np <> Winding) ->
-  reg_inv (mkS (upd (ph s) m np) pr ac rg).
+  reg_inv (mkS (upd (ph s) m np) pr ac rg hk').
 Proof.
   intros H Hnp Hsub Hw e He. cbn [reg] in He. destruct (H e (Hsub e He)) as [A [B C]].
   unfold entry_inv; cbn [ph]. destruct (Z.eq_dec (e_own e) m) as [Em|Hne].
@@ -480,7 +480,7 @@ Proof.
     intros e He. apply remove_owned_in in He. tauto.
   - destruct (ph s m) eqn:E; cbn [fst]; try exact H.
     apply reg_inv_phase; [exact H | discriminate | auto | discriminate].
-  - cbn [fst]. exact H.
+  - destruct (hk s m); cbn [fst]; exact H.
   - destruct (ph s m) eqn:E; cbn [fst]; try exact H.
     apply reg_inv_phase; [exact H | discriminate | |].
     + intros e He. apply remove_owned_in in He. tauto.
@@ -558,7 +558,7 @@ Proof.
     split; [apply owned_remove_other; exact Hx | apply upd_other; exact Hx].
   - destruct (ph s m); cbn [fst reg ph]; try (split; reflexivity).
     split; [reflexivity | apply upd_other; exact Hx].
-  - cbn [fst]. split; reflexivity.
+  - destruct fx; [destruct (hk s m)|]; cbn [fst]; split; reflexivity.
   - destruct (ph s m); cbn [fst reg ph]; try (split; reflexivity).
     split; [apply owned_remove_other; exact Hx | apply upd_other; exact Hx].
   - destruct (ph s m); try (destruct fx; cbn [fst reg ph]; split; try reflexivity; apply owned_remove_other; exact Hx).
@@ -572,6 +572,14 @@ Proof.
       apply Z.eqb_eq in G. assert (F : (e_own e =? x) = false) by (apply Z.eqb_neq; congruence). rewrite F. exact IH.
     + destruct (e_own e =? x); [f_equal|]; exact IH.
 Qed.
+
+(* _mode_started_callback never changes a phase, the active list, a priority or the registry *)
+Lemma cbstarted_frame fx s m :
+  let s' := fst (step fx s (CbStarted m)) in ph s' = ph s /\ pri s' = pri s /\ act s' = act s /\ reg s' = reg s.
+Proof. cbn zeta. unfold step. destruct fx; [destruct (hk s m)|]; cbn [fst ph pri act reg]; repeat split. Qed.
+
+Lemma cbstarted_ph fx s m x : ph (fst (step fx s (CbStarted m))) x = ph s x.
+Proof. destruct (cbstarted_frame fx s m) as [A _]. rewrite A. reflexivity. Qed.
 
 (* ------------------------------------------------------------------------------------------- *)
 (* 4. the mode never wedges itself: a delivered completion is always accepted                    *)
@@ -645,3 +653,197 @@ Lemma ex_idle_after_cycle :
   let h := [Start 1 100; Add 0 1 1; Add 1 1 2; QStarted 1; Add 5 1 3; Stop 1; Add 3 1 4; QStopped 1; CbStopped 1] in
   ph (run_state true h) 1 = Idle /\ reg (run_state true h) = [] /\ length (proj 1 (run_events true h)) = 6%nat.
 Proof. vm_compute. repeat split; reflexivity. Qed.
+
+(* ------------------------------------------------------------------------------------------- *)
+(* 6. the mode_start() hook runs once per start (finding 7, fixes/C07-stale-started-callback.patch) *)
+
+Lemma cbstarted_status s m : r_status (snd (step true s (CbStarted m))) = (if hk s m then 1 else 0).
+Proof. unfold step. destruct (hk s m); reflexivity. Qed.
+
+Lemma cbstarted_clears s m : hk (fst (step true s (CbStarted m))) m = false.
+Proof. unfold step. destruct (hk s m) eqn:E; cbn [fst hk]; [apply upd_same | exact E]. Qed.
+
+(* the flag is set only while the mode is in active_modes *)
+Definition hk_inv (s : state) : Prop := forall m, hk s m = true -> is_act (ph s m) = true.
+
+Lemma hk_inv_upd s m np pr ac rg hk' :
+  hk_inv s -> (forall x, x <> m -> hk' x = hk s x) -> (hk' m = true -> is_act np = true) ->
+  hk_inv (mkS (upd (ph s) m np) pr ac rg hk').
+Proof.
+  intros H Ho Hm x Hx. cbn [ph hk] in *. destruct (Z.eq_dec x m) as [->|Hne].
+  - rewrite upd_same. apply Hm. exact Hx.
+  - rewrite upd_other by exact Hne. apply H. rewrite <- (Ho x Hne). exact Hx.
+Qed.
+
+Lemma hk_inv_same s pr ac rg : hk_inv s -> hk_inv (mkS (ph s) pr ac rg (hk s)).
+Proof. intros H x Hx. exact (H x Hx). Qed.
+
+Lemma hk_inv_cleanup s m : hk_inv s -> ph s m = Winding -> hk_inv (cleanup true m s).
+Proof.
+  intros H E. unfold cleanup. apply hk_inv_upd; [exact H | reflexivity |].
+  intro X. apply H in X. rewrite E in X. discriminate.
+Qed.
+
+Lemma hk_step s o : hk_inv s -> hk_inv (fst (step true s o)).
+Proof.
+  intro H. destruct o as [m p|m|m|m|m|m|c m k|c m k]; unfold step.
+  - destruct (ph s m) eqn:E; cbn [fst]; try exact H.
+    + apply hk_inv_upd; [exact H | reflexivity |]. intro X. apply H in X. rewrite E in X. discriminate.
+    + pose proof (hk_inv_cleanup s m H E) as Hc.
+      apply (hk_inv_upd (cleanup true m s) m Starting); [exact Hc | reflexivity |].
+      intro X. apply Hc in X. unfold cleanup in X; cbn [ph] in X. rewrite upd_same in X. discriminate.
+  - destruct (ph s m) eqn:E; cbn [fst]; try exact H.
+    apply hk_inv_upd; [exact H | reflexivity | reflexivity].
+  - destruct (ph s m) eqn:E; cbn [fst]; try exact H.
+    apply hk_inv_upd; [exact H | intros x Hx; apply upd_other; exact Hx | reflexivity].
+  - destruct (hk s m) eqn:E; cbn [fst]; [|exact H].
+    intros x Hx. cbn [ph hk] in *. destruct (Z.eq_dec x m) as [->|Hne].
+    + rewrite upd_same in Hx. discriminate.
+    + rewrite upd_other in Hx by exact Hne. apply H. exact Hx.
+  - destruct (ph s m) eqn:E; cbn [fst]; try exact H.
+    apply hk_inv_upd; [exact H | intros x Hx; apply upd_other; exact Hx |].
+    rewrite upd_same. discriminate.
+  - destruct (ph s m) eqn:E; cbn [fst]; try exact H.
+    apply hk_inv_cleanup; assumption.
+  - match goal with |- context [if ?c then _ else _] => destruct c end; cbn [fst]; [apply hk_inv_same|]; exact H.
+  - cbn [fst]. apply hk_inv_same. exact H.
+Qed.
+
+Lemma hk_run : forall h s, hk_inv s -> hk_inv (fst (run_from true s h)).
+Proof.
+  induction h as [|o t IH]; intros s H; [exact H|].
+  rewrite run_from_step. cbn [fst]. apply IH. apply hk_step. exact H.
+Qed.
+
+Lemma hk_init : hk_inv init_state.
+Proof. intros m H. discriminate. Qed.
+
+(* only _started sets the flag *)
+Lemma hk_false_stable s o m : hk s m = false -> o <> QStarted m -> hk (fst (step true s o)) m = false.
+Proof.
+  intros F N. destruct o as [x p|x|x|x|x|x|c x k|c x k]; unfold step.
+  - destruct (ph s x); try (destruct fx); cbn [fst hk cleanup]; exact F.
+  - destruct (ph s x); cbn [fst hk]; exact F.
+  - destruct (ph s x); cbn [fst hk]; try exact F.
+    destruct (Z.eq_dec m x) as [->|Hne]; [congruence|]. rewrite upd_other by exact Hne. exact F.
+  - destruct (hk s x); cbn [fst hk]; try exact F.
+    destruct (Z.eq_dec m x) as [->|Hne]; [apply upd_same|]. rewrite upd_other by exact Hne. exact F.
+  - destruct (ph s x); cbn [fst hk]; try exact F.
+    destruct (Z.eq_dec m x) as [->|Hne]; [apply upd_same|]. rewrite upd_other by exact Hne. exact F.
+  - destruct (ph s x); cbn [fst hk cleanup]; exact F.
+  - match goal with |- context [if ?c then _ else _] => destruct c end; cbn [fst hk]; exact F.
+  - cbn [fst hk]. exact F.
+Qed.
+
+Lemma hk_false_run m : forall h s, hk s m = false -> ~ In (QStarted m) h -> hk (fst (run_from true s h)) m = false.
+Proof.
+  induction h as [|o t IH]; intros s F N; [exact F|].
+  rewrite run_from_step. cbn [fst]. apply IH.
+  - apply hk_false_stable; [exact F | intro X; apply N; left; exact X].
+  - intro X. apply N. right. exact X.
+Qed.
+
+(* only the hook run and _stopped clear it *)
+Lemma hk_true_stable s o m :
+  hk s m = true -> o <> CbStarted m -> o <> QStopped m -> hk (fst (step true s o)) m = true.
+Proof.
+  intros T N1 N2. destruct o as [x p|x|x|x|x|x|c x k|c x k]; unfold step.
+  - destruct (ph s x); cbn [fst hk cleanup]; exact T.
+  - destruct (ph s x); cbn [fst hk]; exact T.
+  - destruct (ph s x); cbn [fst hk]; try exact T.
+    destruct (Z.eq_dec m x) as [->|Hne]; [apply upd_same|]. rewrite upd_other by exact Hne. exact T.
+  - destruct (hk s x); cbn [fst hk]; try exact T.
+    destruct (Z.eq_dec m x) as [->|Hne]; [congruence|]. rewrite upd_other by exact Hne. exact T.
+  - destruct (ph s x); cbn [fst hk]; try exact T.
+    destruct (Z.eq_dec m x) as [->|Hne]; [congruence|]. rewrite upd_other by exact Hne. exact T.
+  - destruct (ph s x); cbn [fst hk cleanup]; exact T.
+  - match goal with |- context [if ?c then _ else _] => destruct c end; cbn [fst hk]; exact T.
+  - cbn [fst hk]. exact T.
+Qed.
+
+Lemma hk_true_run m : forall h s,
+  hk s m = true -> ~ In (CbStarted m) h -> ~ In (QStopped m) h -> hk (fst (run_from true s h)) m = true.
+Proof.
+  induction h as [|o t IH]; intros s T N1 N2; [exact T|].
+  rewrite run_from_step. cbn [fst]. apply IH.
+  - apply hk_true_stable; [exact T | intro X; apply N1; left; exact X | intro X; apply N2; left; exact X].
+  - intro X. apply N1. right. exact X.
+  - intro X. apply N2. right. exact X.
+Qed.
+
+(* ONCE: from any state, after a run of the hook no delivery of a started-callback of that mode - however many are
+   outstanding, in whatever order, interleaved with anything else - runs it again until _started runs again *)
+Lemma start_hook_once_per_start_l : forall s m h,
+  r_status (snd (step true s (CbStarted m))) = 1 ->
+  ~ In (QStarted m) h ->
+  r_status (snd (step true (fst (run_from true (fst (step true s (CbStarted m))) h)) (CbStarted m))) = 0.
+Proof.
+  intros s m h _ N. rewrite cbstarted_status.
+  rewrite (hk_false_run m h _ (cbstarted_clears s m) N). reflexivity.
+Qed.
+
+(* AT LEAST ONCE (up to delivery): after an accepted _started the first started-callback that is delivered before the
+   mode's _stopped runs the hook, and the mode is in active_modes at that moment *)
+Lemma started_mode_gets_hook_l : forall h0 m h,
+  ph (run_state true h0) m = Starting ->
+  ~ In (CbStarted m) h -> ~ In (QStopped m) h ->
+  let s2 := fst (run_from true (fst (step true (run_state true h0) (QStarted m))) h) in
+  r_status (snd (step true s2 (CbStarted m))) = 1 /\ is_act (ph s2 m) = true.
+Proof.
+  intros h0 m h P N1 N2. cbn zeta.
+  set (s1 := fst (step true (run_state true h0) (QStarted m))).
+  assert (T1 : hk s1 m = true).
+  { unfold s1, step. rewrite P. cbn [fst hk]. apply upd_same. }
+  assert (I1 : hk_inv s1).
+  { unfold s1. apply hk_step. apply hk_run. exact hk_init. }
+  pose proof (hk_true_run m h s1 T1 N1 N2) as T2.
+  split.
+  - rewrite cbstarted_status, T2. reflexivity.
+  - apply (hk_run h s1 I1). exact T2.
+Qed.
+
+(* the hook only ever runs on a mode that is in active_modes, and a callback that finds the mode not active (stopped by a
+   handler of mode_<m>_started, or starting again) changes nothing at all *)
+Lemma hook_only_on_active_l : forall h m,
+  r_status (snd (step true (run_state true h) (CbStarted m))) = 1 -> is_act (ph (run_state true h) m) = true.
+Proof.
+  intros h m H. rewrite cbstarted_status in H. destruct (hk (run_state true h) m) eqn:E; [|discriminate].
+  apply (hk_run h init_state hk_init). exact E.
+Qed.
+
+Lemma stale_started_callback_noop_l : forall h m,
+  is_act (ph (run_state true h) m) = false ->
+  step true (run_state true h) (CbStarted m) = (run_state true h, mkR 0 []).
+Proof.
+  intros h m A. unfold step. destruct (hk (run_state true h) m) eqn:E; [|reflexivity].
+  assert (X : is_act (ph (run_state true h) m) = true) by (apply (hk_run h init_state hk_init); exact E).
+  congruence.
+Qed.
+
+(* the history of finding 7 (one complete cycle and a second start, both mode_<m>_started events posted, their two callbacks
+   outstanding): the code as found runs the hook in both callbacks, the fixed code in the first one delivered only; a third
+   start gets its hook again *)
+Definition ex_stale_started_hist : list op :=
+  [Start 0 10; QStarted 0; Stop 0; QStopped 0; CbStopped 0; Start 0 10; QStarted 0].
+
+Lemma start_hook_once_refuted_l :
+  exists h m, let s := run_state false h in
+    ph s m = Active /\
+    proj m (run_events false h) = [0; 1; 2; 3; 4; 5; 0; 1; 2] /\
+    r_status (snd (step false s (CbStarted m))) = 1 /\
+    r_status (snd (step false (fst (step false s (CbStarted m))) (CbStarted m))) = 1.
+Proof. exists ex_stale_started_hist, 0. vm_compute. repeat split. Qed.
+
+Fixpoint statuses (fx : bool) (s : state) (h : list op) : list Z :=
+  match h with
+  | [] => []
+  | o :: t => r_status (snd (step fx s o)) :: statuses fx (fst (step fx s o)) t
+  end.
+
+Lemma ex_hook_once :
+  ph (run_state true ex_stale_started_hist) 0 = Active /\
+  statuses true (run_state true ex_stale_started_hist)
+    [CbStarted 0; CbStarted 0; Stop 0; CbStarted 0; QStopped 0; Start 0 10; CbStarted 0; QStarted 0; CbStarted 0; CbStarted 0]
+    = [1; 0; 1; 0; 1; 1; 0; 1; 1; 0] /\
+  statuses true (run_state true (firstn 4 ex_stale_started_hist)) [CbStarted 0] = [0].
+Proof. vm_compute. repeat split. Qed.
